@@ -249,6 +249,7 @@ def execute(sc, choices=None, lenient=False):
                     reading[si] = True
                     c['sleeps'] = 0
                     c['abandoned_at'] = None
+                    c['failed_at_wake'] = False
                     active_from.setdefault(si, sim.now)
                     inf_before = st.get('recover') and k == 0 and getattr(
                         getattr(bucket, '_rate_tracker', None), '_current_rate', None) \
@@ -271,6 +272,15 @@ def execute(sc, choices=None, lenient=False):
                     finally:
                         c['in_read'] = False
                         reading[si] = False
+                    if c.get('failed_at_wake'):
+                        # "a read of a failed or cancelled transfer raises that
+                        # transfer's error instead of waiting on": the error was
+                        # there when the wait ended, the read came back with data
+                        violations.append(['C13', 'read-returned-after-failure',
+                                           'stream %d: its transfer had failed (%r) by the time '
+                                           'its wait ended, yet the read returned %d bytes instead '
+                                           'of raising the error' % (si, coord.exception, len(data)),
+                                           {}])
                     if st.get('recover'):
                         recover_sleeps.append(c['sleeps'])
                         if inf_before and c['sleeps'] and coord.exception is None:
@@ -353,6 +363,12 @@ def execute(sc, choices=None, lenient=False):
                     if over:
                         k = sim.choose(3, 'late')
                         d = d + d * over * (0, 0.5, 1.0)[k]
+                    try:
+                        return real_sleep(d)
+                    finally:
+                        # the transfer failed / was cancelled while this read waited
+                        if coords[si].exception is not None:
+                            c['failed_at_wake'] = True
                 return real_sleep(d)
             sim.sleep = sleep
 
